@@ -153,6 +153,7 @@ class SSplit(Val):
     """s.split(sep, 1): one or two parts depending on whether sep occurs in s"""
     s: Any
     sep: Any
+    exact: bool = False        # split(sep) without maxsplit: unpacking into two names needs exactly one occurrence
 
 
 @dataclass
